@@ -64,19 +64,20 @@ def run(eng, pid, tier, repo, scratch, seed):
         res['inconclusive'].append({'why': 'replay-driver-build', 'detail': str(ex)[-1500:]})
         return res
     for job in eng.get('jobs', []):
-        if job['name'] == 'clear-expired':
+        if job['name'] in ('clear-expired', 'clear-expired-panic'):
             n, tp = (job['thorough'] if tier == 'thorough' else job['quick'])
             t0 = time.time()
-            p = drv(root, ['clear-expired', str(n), str(tp)])
+            p = drv(root, [job['name'], str(n), str(tp)])
             dt = time.time() - t0
-            res['cmds'].append('$SCRATCH/replay/drv/target/debug/replay clear-expired %d %d' % (n, tp))
+            res['cmds'].append('$SCRATCH/replay/drv/target/debug/replay %s %d %d' % (job['name'], n, tp))
             try:
                 j = json.loads(p.stdout.strip().split('\n')[-1])
             except Exception:
                 res['inconclusive'].append({'why': 'replay-driver-output', 'detail': (p.stdout + p.stderr)[-800:]})
                 continue
-            bc = {'name': 'KeyExpList::clear_expired (body: closure capturing &mut inside Vec::retain)', 'engine': 'replay driver: executable contract on the real function',
-                  'bound': 'all vectors of <= %d entries, expirations and time over %d points, every lower bound as cached minimum' % (n, tp),
+            bc = {'name': 'KeyExpList::clear_expired (body: closure capturing &mut inside Vec::retain)' + (' under a panicking expiration accessor' if job['name'].endswith('panic') else ''),
+                  'engine': 'replay driver: executable contract on the real function',
+                  'bound': ('all vectors of <= %d entries, expirations and time over %d points, every lower bound as cached minimum' % (n, tp)) + ('; a panic injected at every call index of expiration()' if job['name'].endswith('panic') else ''),
                   'cases': j.get('cases'), 'nontrivial': j.get('nontrivial'), 'ok': j.get('ok'), 'wall_s': round(dt, 1), 'label': 'bounded - not counted as proved'}
             res['bounded_components'].append(bc)
             if not j.get('ok'):
@@ -111,7 +112,7 @@ def collections_of(records):
     return cols
 
 
-def search(pid, records, repo, scratch, seeds=4000, steps=80):
+def search(pid, records, repo, scratch, seeds=4000, steps=80, tags=None):
     """failing-input search on the real code for the collections behind the failed / undecided obligations.
     Returns {'found': bool, 'input': str, 'tags': [...]} - a counterexample counts for `pid` only if it is tagged with it."""
     for f in records:
@@ -121,6 +122,7 @@ def search(pid, records, repo, scratch, seeds=4000, steps=80):
         root = prepare(repo, scratch)
     except Exception as ex:
         return {'found': False, 'why': 'replay driver does not build against the current /repo: ' + str(ex)[-400:]}
+    tags_wanted = tags
     tried = []
     other = []
     for col in collections_of(records):
@@ -143,7 +145,8 @@ def search(pid, records, repo, scratch, seeds=4000, steps=80):
             rec = {'found': True, 'input': ce, 'tags': tags, 'collection': col,
                    'how': 'replay driver: pseudo-random histories on the real code against a reference model and the executable invariant',
                    'rerun': 'replay explore %s %d %d' % (col, seeds, steps)}
-            if pid in tags or 'C10' in tags:
+            want = set(tags_wanted or [pid]) | {'C10'}
+            if want & set(tags):
                 rec['tried'] = tried
                 return rec
             other.append(rec)
